@@ -51,7 +51,7 @@ class Doc(object):
             return '%.9g' % v
         if k < 0.7:
             return '%e' % v if abs(v) < 1e20 else repr(v)
-        if k < 0.8 and v >= 0:
+        if k < 0.8 and v >= 0 and not repr(v).startswith('-'):     # (-0.0 >= 0)
             return '+' + repr(v)
         return repr(v)
 
